@@ -80,8 +80,10 @@ class C06(Prop):
         "filter tag names, limit >= 0), ids are functional, the filter list is non-empty, maxLimit > 0",
         "a-references to replaceable events and upper-case hex e-references are outside the statement (DESIGN.md 9)",
         "no hash collision (xxHash32 pairs, MD5) among the strings of the history",
-        "the order among events of equal created_at is SQLite's and is not compared; with a small maxLimit that "
-        "cuts the merged answer the oracle tests necessary conditions only",
+        "the order among events of equal created_at is SQLite's and is not compared; 'limit' is read as the effective "
+        "limit min(filter limit, MaxLimit) and the merged answer as its MaxLimit newest events (any choice among "
+        "equally new ones); the oracle decides exactly this statement (C06_oracle_exact), also when a small maxLimit "
+        "cuts the merged answer",
     ]
     signatures = {
         "sqlite_limit0_returns_all": sig_limit0,
